@@ -1,6 +1,7 @@
 package main
 
 import (
+	"strconv"
 	"fmt"
 	"os"
 	"regexp"
@@ -518,7 +519,11 @@ func (g *Gen) storePtr(st *State, p *Ptr, v Val) {
 	case pElemStr:
 		if p.Origin != nil {
 			cur := g.loadPtr(st, p.Origin)
-			g.storePtr(st, p.Origin, Val{T: fmt.Sprintf("(supd %s %s %s)", cur.T, p.Idx, g.toInt(v)), S: "Str", Ty: p.Origin.Ty})
+			nt := fmt.Sprintf("(supd %s %s %s)", cur.T, p.Idx, g.toInt(v))
+			if cur.T == "(zeros 1)" && p.Idx == "0" {
+				nt = fmt.Sprintf("(byte1 %s)", g.toInt(v)) // canonical form of a one-byte string (no extensionality axiom needed)
+			}
+			g.storePtr(st, p.Origin, Val{T: nt, S: "Str", Ty: p.Origin.Ty})
 			return
 		}
 		g.vc.note("unmodelled", "store into byte string element in "+g.curTop)
@@ -794,15 +799,42 @@ func (g *Gen) execFunc(fr *Frame, st *State, guard string) ([]Val, *State, strin
 		}
 	}
 	if invFC != nil {
+		// an anchor is a substring of the loop header's source text, optionally followed by #k to pick the k-th
+		// such loop of the function in source order
+		matches := func(li *loopInfo, anchor string) bool {
+			if anchor == "" {
+				return false
+			}
+			text, k := anchor, 0
+			if i := strings.LastIndex(anchor, "#"); i > 0 {
+				if n, err := strconv.Atoi(anchor[i+1:]); err == nil && n > 0 {
+					text, k = anchor[:i], n
+				}
+			}
+			if !strings.Contains(li.anchor, text) {
+				return false
+			}
+			if k == 0 {
+				return true
+			}
+			var cands []*loopInfo
+			for _, o := range loops {
+				if strings.Contains(o.anchor, text) {
+					cands = append(cands, o)
+				}
+			}
+			sort.Slice(cands, func(i, j int) bool { return cands[i].bodyPos < cands[j].bodyPos })
+			return k <= len(cands) && cands[k-1] == li
+		}
 		for _, li := range loops {
 			for _, inv := range invFC.Invs {
-				if inv.Anchor != "" && strings.Contains(li.anchor, inv.Anchor) {
+				if matches(li, inv.Anchor) {
 					li.invs = append(li.invs, inv)
 					g.seenCall[inv] = true
 				}
 			}
 			for _, d := range invFC.Decr {
-				if d.Anchor != "" && strings.Contains(li.anchor, d.Anchor) {
+				if matches(li, d.Anchor) {
 					li.decr = append(li.decr, d)
 				}
 			}
@@ -1031,7 +1063,7 @@ func (g *Gen) enterLoop(fr *Frame, li *loopInfo, st *State, r string, order []*s
 		}
 		entryVal := fr.vals[phi]
 		v := g.freshVal(fr.id+"loop_"+phi.Comment, phi.Type())
-		if phi.Comment == "rangeindex" {
+		if (phi.Comment == "rangeindex" || phi.Comment == "rangeint.iter") {
 			g.vc.assume("", fmt.Sprintf("(>= %s (- 1))", v.T))
 		}
 		_ = entryVal
@@ -1083,7 +1115,7 @@ func (g *Gen) enterLoop(fr *Frame, li *loopInfo, st *State, r string, order []*s
 		env.headSt = st
 		env.entrySt = li.entrySt
 		for _, in := range li.header.Instrs {
-			if phi, ok := in.(*ssa.Phi); ok && phi.Comment == "rangeindex" {
+			if phi, ok := in.(*ssa.Phi); ok && (phi.Comment == "rangeindex" || phi.Comment == "rangeint.iter") {
 				v := fr.val(phi)
 				env.loopIdx = &v
 			}
@@ -1154,7 +1186,7 @@ func (g *Gen) checkInvariants(fr *Frame, li *loopInfo, st *State, guard string, 
 			env.headSt = st
 		}
 		for _, in := range li.header.Instrs {
-			if phi, ok := in.(*ssa.Phi); ok && phi.Comment == "rangeindex" {
+			if phi, ok := in.(*ssa.Phi); ok && (phi.Comment == "rangeindex" || phi.Comment == "rangeint.iter") {
 				v := fr.val(phi)
 				if backEdge >= 0 {
 					v = fr.val(phi.Edges[backEdge])
